@@ -166,6 +166,34 @@ def names_part(ctx, out):
     return n, nontrivial
 
 
+def order_part(ctx, out):
+    """a.op(b) and b.op(a) over shared sources are different computations and must not share a name"""
+    n = 0
+    for opname in ("subtract", "divide", "power", "add"):
+        for derive in ("map", "sum"):
+            n += 1
+            rp = {"part": "order", "op": opname, "derive": derive}
+            src = fr.source_impl(0, (2, 2), (2,))
+            a = src.map(g)
+            b = src.map(variants()["g-arg1"]()) if derive == "map" else src.sum("x").broadcast(src)
+            try:
+                ab, ba = getattr(a, opname)(b), getattr(b, opname)(a)
+                nodes = list((ab.graph() + ba.graph()).nodes())
+            except Exception as e:
+                out.append(({"monitor": "fluent_raised", "cause": f"{type(e).__name__} building {opname}"}, f"{rp}: {e!r}", rp))
+                continue
+            memo: dict = {}
+            byname: dict = {}
+            for node in nodes:
+                byname.setdefault(node.name, set()).add(denotation(node, memo))
+            for name, ds in byname.items():
+                if len(ds) > 1:
+                    out.append(({"monitor": "name_collision", "cause": "same callable and statics, same parents bound to different parameters (a.op(b) vs b.op(a))"},
+                                f"{opname}/{derive}: name {name[:40]} carries {len(ds)} computations", rp))
+                    break
+    return n, n
+
+
 def reproducibility_part(ctx, out):
     """same program twice in this process, and once in a subprocess with another hash seed"""
 
@@ -326,6 +354,8 @@ def run(ctx):
         n4, nt4 = pairs_part(ctx, out)
         n1, nt1 = n1 + n4, nt1 + nt4
     n2, nt2 = reproducibility_part(ctx, out)
+    n5, nt5 = order_part(ctx, out)
+    n2, nt2 = n2 + n5, nt2 + nt5
     n3, nt3 = operands_part(ctx, out)
     for sig, msg, rp in out:
         ctx.add_violation(common.Violation(sig, msg, rp))
@@ -340,6 +370,9 @@ def run(ctx):
 
 def replay(ctx, data):
     out: list = []
+    if data["part"] == "order":
+        order_part(ctx, out)
+        return [common.Violation(sig, msg, rp) for sig, msg, rp in out]
     if data["part"] == "pairs":
         return [common.Violation(sig, msg, rp) for sig, msg, rp in _pair_chunk(([(0, 1)], data["ops"]))]
     if data["part"] == "names":
